@@ -745,7 +745,8 @@ def _type_refs(f):
                         txt = txt.decode() if isinstance(txt, bytes) else str(txt)
                         import re
 
-                        refs.update(m.lower() for m in re.findall(r"[0-9a-fA-F]{8}-[0-9a-fA-F]{4}-[0-9a-fA-F]{4}-[0-9a-fA-F]{4}-[0-9a-fA-F]{12}", txt))
+                        # only the fields that name a TYPE: "Object Type ID": "{…}", "Type ID": "{…}"
+                        refs.update(m.lower() for m in re.findall(r'Type ID"\s*:\s*"\{?([0-9a-fA-F]{8}-[0-9a-fA-F]{4}-[0-9a-fA-F]{4}-[0-9a-fA-F]{4}-[0-9a-fA-F]{12})', txt))
     return refs
 
 
@@ -769,6 +770,16 @@ def run_dh_history(ops, work, tag):
             break  # a workspace that cannot be closed / re-opened ends the history (reported by the oracle)
         dig.append([file_digests(w.geoh5) for w in im.ws])
         refs.append([sorted(_type_refs(w.geoh5)) for w in im.ws])
+        if op["op"] == "reopen":
+            # just after close + open the file is what a later reader sees: every type a stored entity (or a concatenated
+            # attribute record) refers to must exist under Types
+            miss = []
+            for w in im.ws:
+                f = w.geoh5
+                proj = f[list(f)[0]]
+                have = {u.strip("{}").lower() for tc in proj.get("Types", {}) for u in proj["Types"][tc]}
+                miss.append(sorted(_type_refs(f) - have))
+            steps[-1]["missing_types"] = miss
     try:
         im.close()
     except Exception:  # noqa: BLE001
@@ -796,6 +807,14 @@ def oracle_dh(case, obs):
                 key = "dh-copy-shares-state-with-source"
             fails.append({"key": key, "what": f"op {i} {op}: {oc[:200]}"})
             break
+        if op["op"] == "reopen" and oc == "done":
+            miss = st.get("missing_types") or [[], []]
+            if miss[0]:
+                fails.append({"key": "dh-types-missing-after-close", "what": f"op {i}: file 0 refers to types that are not under Types: {miss[0][:3]}"})
+                return fails
+            if miss[1]:
+                fails.append({"key": "dh-copy-target-types-swept", "what": f"op {i}: the copy-target file refers to types that are not under Types: {miss[1][:3]}"})
+                return fails
         if oc != "done" or op["op"] == "reopen":
             continue
         info = st["info"]
@@ -818,20 +837,8 @@ def oracle_dh(case, obs):
                 if p.startswith("Types/") and fi == w and p not in before:
                     continue  # a type it introduces
                 if p.startswith("Types/") and p not in after:
-                    tid = p.rsplit("/", 1)[1].strip("{}").lower()
-                    if tid not in obs["type_refs"][i][fi]:
-                        continue  # a type nothing refers to any more
-                    if fi == 1:
-                        # recorded defect: the data types created in the target workspace by a cross-workspace copy of a
-                        # drillhole group are held by nothing (the data are loaded lazily) and are swept by the next listing
-                        known_target = True
-                        continue
-                    bad.add(p + " (deleted while still referenced)")
-                    continue
+                    continue  # judged at the next close + open (missing_types): concatenated attribute records are flushed at close
                 bad.add(p)
-            if known_target and not bad:
-                fails.append({"key": "dh-copy-target-types-swept", "what": f"op {i} {op}: data types still referenced by the copied group's concatenated data were deleted from the target file"})
-                return fails
             if bad:
                 fails.append({"key": "dh-collateral-change" if fi == w else "dh-other-file-changed",
                               "what": f"op {i} {op} (target {tgt}, ws {w}) changed in file {fi}: {sorted(bad)[:4]}"})
